@@ -482,6 +482,30 @@ func (e *c10Env) c10HugeRead(mut []byte, variant string) bool {
 	return false
 }
 
+const c10MmapCrashID = "C10-archive-crash-file.Mmap"
+
+// c10MmapSpanOutOfFile reports the shape of finding C10-archive-crash-file.Mmap: archive indexes
+// are memory-mapped and the footer's index length/offsets point outside the file. file.Mmap then
+// panics on a goroutine of tableSet.rebase's errgroup while the store is being opened, which no
+// caller can recover: the process dies. While the finding is listed as open the shape is excluded
+// by construction (it cannot be observed and survived); otherwise the variant is executed and the
+// crash is reported through current_case.json.
+func (e *c10Env) c10MmapSpanOutOfFile(mut []byte) bool {
+	if e.c.Kind != "archive" || !e.c.Mmap {
+		return false
+	}
+	sz := uint64(len(mut))
+	if sz < archiveFooterSize {
+		return false
+	}
+	ftr, err := buildArchiveFooter(hash.Hash{}, sz, mut[sz-archiveFooterSize:])
+	if err != nil {
+		return false
+	}
+	span := ftr.totalIndexSpan()
+	return span.offset > sz || span.length > sz || span.offset+span.length > sz
+}
+
 // enumerate runs every variant of the current target.
 func (e *c10Env) enumerate(rt *rapid.T, t *testing.T, rec *vh.Recorder, id string) (violations int) {
 	orig := e.files[e.c.Target]
@@ -542,6 +566,11 @@ func (e *c10Env) enumerate(rt *rapid.T, t *testing.T, rec *vh.Recorder, id strin
 				*e.skipped++
 				continue
 			}
+			if e.c10MmapSpanOutOfFile(mut) && vh.OpenFinding("C10", c10MmapCrashID) {
+				rec.Excluded(1)
+				c10KnownSeen.Store(c10MmapCrashID, "archive footer index span outside the file with mmap'd indexes: file.Mmap panics on an errgroup goroutine during open (process crash); shape excluded by construction, not executed")
+				continue
+			}
 			_ = os.WriteFile("current_case.json", e.caseJSON(off, v), 0o644)
 			outcome, viol := e.runVariant(off, v, mut)
 			rec.Case(fmt.Sprintf("%s %s off=%d/%d %s", id, e.c.Kind, off, len(orig), v), nontrivial, e.c.Kind+":"+outcome, e.c.Kind+":region="+region)
@@ -549,16 +578,16 @@ func (e *c10Env) enumerate(rt *rapid.T, t *testing.T, rec *vh.Recorder, id strin
 				vh.Inconclusive(rt, "a read on a corrupted %s did not finish within 60s (off=%d %s)", e.c.Kind, off, v)
 			}
 			if viol != "" {
-				if known := c10Known(e.c.Kind, outcome, viol); known != "" {
+				if known := c10Known(e.c.Kind, outcome, region, viol); known != "" {
 					rec.Excluded(1)
 					c10KnownSeen.Store(known, viol)
 					continue
 				}
 				violations++
-				sig := c10FindingID(e.c.Kind, outcome, viol)
+				sig := c10FindingIDAt(e.c.Kind, outcome, region, viol)
 				if _, dup := c10Reported.LoadOrStore(sig, true); !dup {
 					vh.NoteViolation(t.Name(), "", string(e.caseJSON(off, v)))
-					t.Errorf("C10 finding-id=%s: %s %s off=%d variant=%s (region %s): %s", c10FindingID(e.c.Kind, outcome, viol), e.c.Kind, e.c.Target, off, v, region, viol)
+					t.Errorf("C10 finding-id=%s: %s %s off=%d variant=%s (region %s): %s", sig, e.c.Kind, e.c.Target, off, v, region, viol)
 				}
 			}
 		}
@@ -595,7 +624,16 @@ var c10KnownSeen sync.Map
 // A signature listed in known_findings.json with status "open" is skipped and reported as
 // KNOWN-FINDING; everything else is a VIOLATION.
 func c10FindingID(kind, outcome, viol string) string {
+	return c10FindingIDAt(kind, outcome, "", viol)
+}
+
+// c10FindingIDAt additionally distinguishes non-panic failures by the region of the corrupted
+// byte when that is structure (index/footer/metadata) rather than chunk payload.
+func c10FindingIDAt(kind, outcome, region, viol string) string {
 	id := "C10-" + kind + "-" + outcome
+	if outcome != "panic" && region != "" && region != "payload" && region != kind {
+		id += "-" + region
+	}
 	if f := c10TopFrame(viol); f != "" {
 		if i := strings.LastIndex(f, "/"); i >= 0 {
 			f = f[i+1:]
@@ -606,8 +644,8 @@ func c10FindingID(kind, outcome, viol string) string {
 	return id
 }
 
-func c10Known(kind, outcome, viol string) string {
-	if id := c10FindingID(kind, outcome, viol); vh.OpenFinding("C10", id) {
+func c10Known(kind, outcome, region, viol string) string {
+	if id := c10FindingIDAt(kind, outcome, region, viol); vh.OpenFinding("C10", id) {
 		return id
 	}
 	return ""
